@@ -239,6 +239,97 @@ pub fn disasm_sweep(req: &J) -> J {
     json!({"class": "ok", "count": count, "nontrivial": nontrivial, "failures": failures})
 }
 
+/// Judgement sets as seen by the *whole* type checker: the request names `nvars` opaque values, binds some of them to
+/// constant storage slots (value trees `swrite(slot(k), v_i)`), the real `assign_vars` and `infer` run, the request's
+/// judgements are added to the variables of those values, and the real `TypeChecker::unify` resolves the types and
+/// builds the layout.
+pub fn tc_layout(req: &J) -> J {
+    use storage_layout_extractor::{tc, vm::value::{known::KnownWord, RSVD, TCSVD}, watchdog::LazyWatchdog};
+    let nvars = req.get("nvars").and_then(J::as_u64).unwrap_or(0) as usize;
+    let vals: Vec<std::sync::Arc<RSV>> = (0..nvars).map(|_| RSV::new_value(0, Provenance::Synthetic)).collect();
+    let ids: Vec<uuid::Uuid> = vals
+        .iter()
+        .map(|v| match v.data() {
+            RSVD::Value { id } => *id,
+            _ => uuid::Uuid::nil(),
+        })
+        .collect();
+    let mut values = std::collections::VecDeque::new();
+    // every value is known to the checker; those bound to a slot are stored there
+    let mut bound = vec![false; nvars];
+    let empty = Vec::new();
+    for b in req.get("slots").and_then(J::as_array).unwrap_or(&empty) {
+        let slot = b.get(0).and_then(J::as_str).unwrap_or("0");
+        let vi = b.get(1).and_then(J::as_u64).unwrap_or(0) as usize;
+        if vi >= nvars {
+            return json!({"class": "harness_error", "msg": "slot bound to unknown value"});
+        }
+        let word: KnownWord = match tree::parse_word(slot) {
+            Ok(w) => w,
+            Err(e) => return json!({"class": "harness_error", "msg": e}),
+        };
+        let key = RSV::new_synthetic(0, RSVD::KnownData { value: word });
+        let slot_v = RSV::new_synthetic(0, RSVD::StorageSlot { key });
+        values.push_back(RSV::new_synthetic(0, RSVD::StorageWrite { key: slot_v, value: vals[vi].clone() }));
+        bound[vi] = true;
+    }
+    for (i, v) in vals.iter().enumerate() {
+        if !bound[i] {
+            values.push_back(v.clone());
+        }
+    }
+    let shared = Rc::new(RefCell::new(MonState::new()));
+    let budget = req.get("budget").and_then(J::as_u64);
+    shared.borrow_mut().stop_at = budget;
+    let wd: DynWatchdog = match budget {
+        Some(_) => Rc::new(DriverWatchdog { every: 1, stop_at: budget, polls: Cell::new(0), shared: RcState(shared.clone()) }),
+        None => LazyWatchdog.in_rc(),
+    };
+    let mut checker = tc::TypeChecker::new(tc::Config::default(), wd);
+    if let Err(e) = checker.assign_vars(values) {
+        return json!({"class": "err", "stage": "assign_vars", "error": format!("{e}")});
+    }
+    if let Err(e) = checker.infer() {
+        return json!({"class": "err", "stage": "infer", "error": format!("{e}")});
+    }
+    // the type variable of each named value
+    let mut var_of: Vec<Option<storage_layout_extractor::tc::state::type_variable::TypeVariable>> = vec![None; nvars];
+    #[allow(unsafe_code)]
+    let state = unsafe { checker.state_mut() };
+    for (tvv, val) in state.pairs_cloned() {
+        if let TCSVD::Value { id } = val.data() {
+            if let Some(i) = ids.iter().position(|x| x == id) {
+                var_of[i] = Some(tvv);
+            }
+        }
+    }
+    if var_of.iter().any(Option::is_none) {
+        return json!({"class": "harness_error", "msg": "a named value got no type variable"});
+    }
+    let map = |i: u64| var_of[(i as usize).min(nvars.saturating_sub(1))].expect("checked above");
+    for jd in req.get("judgements").and_then(J::as_array).unwrap_or(&empty) {
+        let var = jd.get(0).and_then(J::as_u64).unwrap_or(0);
+        if var as usize >= nvars {
+            return json!({"class": "harness_error", "msg": "judgement on unknown var"});
+        }
+        let expr = match te::parse_map(jd.get(1).unwrap_or(&J::Null), &map) {
+            Ok(e) => e,
+            Err(e) => return json!({"class": "harness_error", "msg": e}),
+        };
+        state.infer(map(var), expr);
+    }
+    match checker.unify() {
+        Err(e) => {
+            let kinds: Vec<String> = e.payloads().iter().map(|p| format!("{:?}", p.payload).split(|c: char| !c.is_alphanumeric()).next().unwrap_or("").to_string()).collect();
+            json!({"class": "err", "stage": "unify", "error": format!("{e}").chars().take(300).collect::<String>(), "kinds": kinds})
+        }
+        Ok(layout) => {
+            let slots: Vec<J> = layout.slots().iter().map(|s| serde_json::to_value(s).unwrap_or(J::Null)).collect();
+            json!({"class": "ok", "layout": slots})
+        }
+    }
+}
+
 fn fresh_state(nvars: u64) -> TypeCheckerState {
     let mut state = TypeCheckerState::empty();
     for _ in 0..nvars {
